@@ -154,7 +154,7 @@ SPEC = {
         "dx_params", "slots_stable_reread", "annotations_stable", "reread_names_group",
         "reread_table_agrees", "cast_drop_agrees", "reread_only_int32",
         "reelab_no_new_casts", "reelab_stmt_no_new_casts", "export_is_source", "unelab_is_export", "renamed_exists",
-        "reelab_idempotent", "reelab_fails_out_argument",
+        "reelab_idempotent", "out_arguments_plain", "out_arguments_plain_stmt", "out_argument_conversion_rejected",
         "bridge_square", "skeleton_and_constants", "reread_payloads_as_modelled", "leaf_value_preserved", "parsesBack_of_c09", "fixpoint_expr", "fixpoint_expr_text", "fixpoint_stmt",
         "namesAgreeEx", "idxInjEx"]] + LEG_THEOREMS,
     "harness": "c04",
